@@ -145,12 +145,12 @@ RULE = ("pair cases (a, b): intersection(a,b), intersection(b,a), intersection(a
         "whose items changed; exhaustive: all pairs of dictionaries over keys {a,b} of depth <= 2 with one falsy and one truthy "
         "leaf chosen by the seed (quick: 144^2 pairs) or three leaves (thorough: 400^2 pairs), all pairs over keys {a,b,c} of "
         "depth 1 with three leaves (64^2), all triples of depth-1 dictionaries over {a,b} x 5 levels (all 6 permutations, both "
-        "nestings); sampled per seed (quick / thorough): 2500 / 60000 pairs and 2500 / 40000 tuples of 2-4 dictionaries over 3 "
+        "nestings); sampled per seed (quick / thorough): 2000 / 60000 pairs and 2000 / 40000 tuples of 2-4 dictionaries over 3 "
         "keys up to depth 3 with the whole leaf palette (0, False, None, '', [], 1, True, 'x', [1], 2, 'y', [{}]), 60% of them "
-        "neighbours of each other, levels also -2 and 4; 416 / 10000 narrow pairs of depth 4-6 with levels -1,-2,1,2,4,5,6; "
-        "1500 / 15000 update_nested calls with key chains of length 0-3 ending in an absent key or a non-dictionary (objects "
+        "neighbours of each other, levels also -2 and 4; 333 / 10000 narrow pairs of depth 4-6 with levels -1,-2,1,2,4,5,6; "
+        "1200 / 15000 update_nested calls with key chains of length 0-3 ending in an absent key or a non-dictionary (objects "
         "after the call and write log compared), 4 self-referential ones; 400 / 3000 calls with non-dictionary arguments, "
-        "100 / 750 with keyword arguments; 600 / 8000 each of: update_recursively with a string / dictionary / other `other` and "
+        "100 / 750 with keyword arguments; 500 / 8000 each of: update_recursively with a string / dictionary / other `other` and "
         "with `value`; Zip over 1-4 stub sources (fill-compute or fill-request, optional namedtuple fields, 40% with a second "
         "tuple of values through the same Zip object); group_plots and Split._get_context over branches built from real "
         "SetContext elements; _update_with_group directly and through MapGroup.run.  Non-trivial: the arguments are non-empty "
@@ -294,7 +294,7 @@ def _gen(ctx, n_exh_leaves, n_pair, n_multi, n_nested, n_bad, n_ext):
     u2 = _universe(["a", "b"], leaves2, 2)
     u3 = _universe(["a", "b", "c"], leaves3, 1)
     u1 = _universe(["a", "b"], [f, t], 1)
-    deep_every = 4 if n_exh_leaves < 3 else 8
+    deep_every = 6 if n_exh_leaves < 3 else 8
     seeds = [top.random() for _ in range(16)]
     ctx.exhaustive = False   # the sampled part is not an enumeration
     ctx.notes = [f"exhaustive pair scope: keys a,b depth<=2 leaves {leaves2!r} ({len(u2)}^2 pairs); keys a,b,c depth 1 leaves "
@@ -305,7 +305,7 @@ def _gen(ctx, n_exh_leaves, n_pair, n_multi, n_nested, n_bad, n_ext):
             for j, b in enumerate(u2):
                 # ("paths": also compare the Lean path vocabulary untouchedL/getPath with the Python reference, the id()
                 # pattern of the results with the token model and the objects written by update_recursively with the write
-                # log; on a quarter / an eighth of the exhaustive scope and on every sampled pair)
+                # log; on a sixth / an eighth of the exhaustive scope and on every sampled pair)
                 yield {"op": "pair", "a": a, "b": b, "levels": LEVELS, "paths": (i + j) % deep_every == 0}
 
     def exh_small():
@@ -465,8 +465,12 @@ def _gen(ctx, n_exh_leaves, n_pair, n_multi, n_nested, n_bad, n_ext):
                 ctx_ = _fresh(glb) if rng.random() < 0.7 else _mutate(rng, glb, keys3, leaves)
                 if rng.random() < 0.5:
                     ctx_[rng.choice(keys3)] = copy.deepcopy(rng.choice(leaves))
-                yield {"op": "uwg", "ctx": _with_changed(rng, ctx_, 0.3), "new": [_with_changed(rng, c, 0.3) for c in new],
-                       "old": {}, "oldgrp": oldgrp}
+                case = {"op": "uwg", "ctx": _with_changed(rng, ctx_, 0.3), "new": [_with_changed(rng, c, 0.3) for c in new],
+                        "old": {}, "oldgrp": oldgrp}
+                if rng.random() < 0.4:
+                    # the sequence yields two results per member: two values come out, the first with a copy of the context
+                    case["new2"] = [_with_changed(rng, _mutate(rng, c, keys3, leaves), 0.2) for c in new]
+                yield case
                 continue
             yield {"op": "uwg", "ctx": _with_changed(rng, ctx_, 0.4), "new": [_with_changed(rng, c, 0.3) for c in new],
                    "old": _with_changed(rng, _fresh(old), 0.15)}
@@ -476,7 +480,7 @@ def _gen(ctx, n_exh_leaves, n_pair, n_multi, n_nested, n_bad, n_ext):
 
 def gen_cases(ctx):
     if ctx.tier == "quick":
-        return _gen(ctx, 2, 2500, 2500, 1500, 400, 600)
+        return _gen(ctx, 2, 2000, 2000, 1200, 400, 500)
     return _gen(ctx, 3, 60000, 40000, 15000, 3000, 8000)
 
 
@@ -933,7 +937,16 @@ def _run_impl(case):
                 out["zip"] = None
                 out["common"] = context
             outs.append(out)
-        return {"outs": outs, "changed": _snap(rounds) != s0}
+        ended = None
+        if outs and "e" not in outs[-1]:
+            try:
+                next(it)
+                ended = False
+            except StopIteration:
+                ended = True
+            except Exception as e:  # noqa
+                ended = exc_name(e)
+        return {"outs": outs, "ended": ended, "changed": _snap(rounds) != s0}
     if op == "group":
         from lena.flow.group_plots import group_plots
         ctxs = _fresh(case["ctxs"])
@@ -974,21 +987,29 @@ def _run_impl(case):
             oldgrp = _fresh(case["oldgrp"])
             s0 = _snap(new, oldgrp)
 
+            news = [new] + ([_fresh(case["new2"])] if "new2" in case else [])
+
             class _Repl(object):
                 def run(self, flow):
                     for val in flow:
                         data, _c = lena.flow.get_data_context(val)
-                        yield (data, new[data])
+                        for nw in news:
+                            yield (data, nw[data])
 
             ctx_["group"] = oldgrp
             u = _call(lambda: list(MapGroup(_Repl()).run([(list(range(len(oldgrp))), ctx_)])))
             if "e" in u:
                 return u
-            (data, c1), = u["r"]
-            grp = c1.get("group")
-            return {"ctx": {k: v for k, v in c1.items() if k != "group"},
-                    "group_is": isinstance(grp, list) and len(grp) == len(new) and all(x is y for x, y in zip(grp, new)),
-                    "changed": _snap(new, oldgrp) != s0}
+            if len(u["r"]) != len(news):
+                return {"e": "Other:%d values instead of %d" % (len(u["r"]), len(news))}
+            outs = []
+            for (data, c1), nw in zip(u["r"], news):
+                grp = c1.get("group")
+                outs.append({"ctx": {k: v for k, v in c1.items() if k != "group"},
+                             "group_is": isinstance(grp, list) and len(grp) == len(nw) and all(x is y for x, y in zip(grp, nw))})
+            return {"ctx": outs[0]["ctx"], "group_is": outs[0]["group_is"], "ctx2": outs[1]["ctx"] if len(outs) > 1 else None,
+                    "changed": _snap(news, oldgrp) != _snap([_fresh(case["new"])] + ([_fresh(case["new2"])] if "new2" in case else []),
+                                                           case["oldgrp"])}
         s0 = _snap(new, old)
         u = _call(_update_with_group, ctx_, new, old)
         if "e" in u:
@@ -1015,7 +1036,7 @@ def _run_impl(case):
 # translation to the model's slot vectors
 
 _VALUE_FIELDS = ("a", "b", "d", "other", "value", "ctx", "old")
-_LIST_FIELDS = ("ds", "vals", "values", "values2", "ctxs", "new", "oldgrp")
+_LIST_FIELDS = ("ds", "vals", "values", "values2", "ctxs", "new", "new2", "oldgrp")
 
 
 def _case_values(case):
@@ -1150,8 +1171,9 @@ def model_requests(case):
                  "falsy": e.falsy()}]
     if op == "uwg":
         return [{"op": "uwg", "n": n, "o": e.keys.index("output"), "ch": e.keys.index("changed"), "tt": e.tt, "ff": e.ff,
-                 "ctx": e.val(case["ctx"]), "new": [e.val(c) for c in case["new"]], "old": e.val(case["old"]),
-                 "falsy": e.falsy(), **({"oldgrp": [e.val(c) for c in case["oldgrp"]]} if "oldgrp" in case else {})}]
+                 "ctx": e.val(case["ctx"]), "new": [e.val(c) for c in case[nw]], "old": e.val(case["old"]),
+                 "falsy": e.falsy(), **({"oldgrp": [e.val(c) for c in case["oldgrp"]]} if "oldgrp" in case else {})}
+                for nw in (["new", "new2"] if "new2" in case else ["new"])]
     if op == "bad":
         vals = [e.val(v) for v in case["vals"]]
         reqs = [{"op": "inter", "n": n, "level": case["level"], "ds": vals, "falsy": e.falsy()}]
@@ -1417,6 +1439,9 @@ def compare(case, res, replies):
         if e.val(res["ctx"]) != m["ctx"]:
             return (f"_update_with_group({case['ctx']}, {case['new']}, {case['old']}): context impl {e.val(res['ctx'])} "
                     f"vs model {m['ctx']}")
+        if len(replies) > 1 and e.val(res["ctx2"]) != replies[1]["ctx"]:
+            return (f"MapGroup.run, second value: context impl {e.val(res['ctx2'])} vs model {replies[1]['ctx']} "
+                    f"(context {case['ctx']}, group {case['oldgrp']} -> {case['new2']})")
         return None
     if op == "bad":
         names = ["inter", "diff", "upd"]
@@ -1638,6 +1663,8 @@ def _oracle(case, res):
             return f"Zip could not be set up: {res} for {case}"
         if res.get("changed"):
             return f"Zip._create_context changed a context of {_zip_rounds(case)}"
+        if res.get("ended") not in (None, True):
+            return f"Zip yields more values than its sources ({_zip_rounds(case)}): {res['ended']}"
         for i, vals in enumerate(_zip_rounds(case)):
             if i >= len(res["outs"]):
                 return f"Zip yielded only {len(res['outs'])} values for {_zip_rounds(case)}"
@@ -1695,6 +1722,12 @@ def _oracle(case, res):
             return f"_update_with_group raised {res['e']} for {case}"
         if res["changed"]:
             return f"_update_with_group changed the new group contexts or the old intersection ({case})"
+        if "new2" in case:
+            # the second value of the same MapGroup run is judged like the first
+            msg = _oracle({k: v for k, v in dict(case, new=case["new2"]).items() if k != "new2"},
+                          {"ctx": res["ctx2"], "changed": False})
+            if msg:
+                return "MapGroup.run, second value: " + msg
         new = case["new"]
         glb = new[0]
         for c in new[1:]:
